@@ -8,7 +8,7 @@ import re
 BOUND = {
     "quick": "all calendar/event fixture files that parse (about 85) plus 4 synthetic texts x 7 rewrites (LF, BOM, str, re-fold with "
              "space, re-fold with tab, trailing blank lines, name-case variants: lower / upper / swapped) + 3 random compositions each, "
-             "zoneinfo provider; compared: tree, re-serialisation, utcoffset of parsed date-times",
+             "both providers; compared: tree, re-serialisation, utcoffset of parsed date-times",
     "thorough": "same with 12 random compositions each and both providers",
 }
 SYNTH = [
@@ -160,7 +160,7 @@ def run(b, tier, seed, findings, known_seen):
     n = 0
     singles = ["LF", "BOM", "str", "refold-space", "refold-tab", "blank-lines", "lower", "upper", "swapcase"]
     ncomp = 3 if tier == "quick" else 12
-    for prov in (["zoneinfo"] if tier == "quick" else ["zoneinfo", "pytz"]):
+    for prov in ("zoneinfo", "pytz"):
         icalendar.timezone.tzp.use(prov)
         PROVIDER[0] = prov
         try:
